@@ -10,7 +10,9 @@ def funcs : List (String × String) := [
   ("internal/target/queue/timewheel.go:NewTimeWheel", "8dd63ea82b2a7d2f"),
   ("internal/target/queue/timewheel.go:TimeWheel.Add", "5ef7003f9d35d94b"),
   ("internal/target/queue/timewheel.go:TimeWheel.Close", "59194037da60a83e"),
-  ("internal/target/queue/timewheel.go:TimeWheel.tick", "600c3021df07515d")
+  ("internal/target/queue/timewheel.go:TimeWheel.tick", "600c3021df07515d"),
+  ("internal/target/queue/timewheel.go:type TimeSlot", "1547ea0d6605086b"),
+  ("internal/target/queue/timewheel.go:type TimeWheel", "ac67b6ff94775190")
 ]
 
 end MaddyVerif.Expect.FuncSkelC12
